@@ -1519,3 +1519,179 @@ U_LIT = VUnit("c01_small_handlers", ["C01", "C15", "C06", "C07", "C12", "C13", "
 U_LIT.assumes = ["Primitive::make_* are abstract callees here (obligations C01.literal.* of unit c01_literal_parsers)", "Display for Primitive (`shown`) is uninterpreted: the TEXT of a value is not under contract here, only which values are printed, in which order, on how many lines",
                  "standard output as a ghost log of lines (print!/println! append); Stack::delete_variable_local abstract; gc cell semantics assumed"]
 UNITS.append(U_LIT)
+
+
+# =====================================================================================================================
+# C08 / C11: the object and module handlers -- call_object, lookup, module_entry, load_self_export, export_special, ret_mod
+OBJ_SPEC = r"""
+// an object: its variables (the cells its methods captured: unit c08_object_fields) -- a handle of the same mapping
+pub struct ObjV { pub object_variables: Caps }
+#[verifier::external_body] pub fn clone_caps(c: &Caps) -> (r: Caps) ensures caps_view(&r) == caps_view(c) { unimplemented!() }
+// Primitive::lookup (units c14_lookup, c08_lookup): the member's own cell, or the value that has no such member, or a failure
+pub uninterp spec fn member_of(p: Primitive, name: Seq<char>) -> Result<Result<Handle, Primitive>, VErr>;
+impl Primitive {
+    #[verifier::external_body] pub fn lookup(&self, name: &VString) -> (r: Result<Result<Handle, Primitive>, VErr>)
+        ensures (r is Ok) == (member_of(*self, text_of(name)) is Ok),
+                r is Ok ==> (r->Ok_0 is Ok) == (member_of(*self, text_of(name))->Ok_0 is Ok),
+                (r is Ok && r->Ok_0 is Ok) ==> cell_id(&r->Ok_0->Ok_0) == cell_id(&member_of(*self, text_of(name))->Ok_0->Ok_0) { unimplemented!() }
+}
+// HeapPrimitive::new_lookup_view: a pointer to exactly that cell
+pub uninterp spec fn lookup_target(h: &HeapV) -> Option<int>;
+#[verifier::external_body] pub fn new_lookup_view(c: Handle) -> (r: HeapV) ensures lookup_target(&r) == Some(cell_id(&c)) { unimplemented!() }
+pub uninterp spec fn cell_value(id: int) -> Primitive;
+impl Handle { #[verifier::external_body] pub fn verif_value(&self) -> (r: Primitive) ensures r == cell_value(cell_id(self)) { unimplemented!() } }
+// the executing file's export table and module value
+#[verifier::external_body] pub struct Exports { x: usize }
+pub uninterp spec fn exports_view(e: &Exports) -> Map<Seq<char>, Handle>;
+#[verifier::external_body] pub fn register_export(e: &mut Exports, name: VString, pair: Handle) -> (r: Result<(), VErr>)
+    ensures r is Ok <==> !exports_view(old(e)).contains_key(text_of(&name)),
+            r is Ok ==> exports_view(final(e)) == exports_view(old(e)).insert(text_of(&name), pair), r is Err ==> exports_view(final(e)) == exports_view(old(e)) { unimplemented!() }
+#[verifier::external_body] pub fn load_self_export_of(e: &Exports, name: &VString) -> (r: Option<Handle>)
+    ensures r is Some <==> exports_view(e).contains_key(text_of(name)), r is Some ==> cell_id(&r->Some_0) == cell_id(&exports_view(e)[text_of(name)]) { unimplemented!() }
+pub uninterp spec fn module_value(e: &Exports) -> Primitive;                  // Ctx::get_file_module: the module value of the executing file
+#[verifier::external_body] pub fn get_file_module(e: &Exports) -> (r: Primitive) ensures r == module_value(e) { unimplemented!() }
+pub struct VariableFlags(pub u8);
+pub const READ_ONLY: u8 = 1;
+pub uninterp spec fn cell_read_only(id: int) -> bool;
+// PrimitiveFlagsPair::new: a NEW cell with that content and those flags
+#[verifier::external_body] pub fn new_pair(v: Primitive, f: VariableFlags) -> (r: Handle) ensures cell_value(cell_id(&r)) == v, cell_read_only(cell_id(&r)) == (f.0 == READ_ONLY) { unimplemented!() }
+// Ctx::ref_variable: binds a name of the current frame to an existing cell
+pub uninterp spec fn refs(f: &Frames) -> Seq<(Seq<char>, int)>;
+impl Ctx {
+    #[verifier::external_body] pub fn ref_variable(&mut self, name: VString, var: Handle)
+        ensures final(self).stack == old(self).stack, final(self).exit_state == old(self).exit_state, final(self).callback_state == old(self).callback_state, final(self).call_stack == old(self).call_stack,
+                refs(&final(self).frames) == refs(&old(self).frames).push((text_of(&name), cell_id(&var))) { unimplemented!() }
+}
+pub enum ReturnValue { FFIError(VString), NoValue, Value(Primitive) }
+#[verifier::external_body] pub fn stack_get(v: &Vec<Primitive>, i: usize) -> (r: Option<&Primitive>) ensures (i as int) < v@.len() <==> r is Some, r is Some ==> *r->Some_0 == v@[i as int] { unimplemented!() }
+"""
+
+
+def build_object_handlers(repo):
+    src = Source(repo)
+    log = []
+    names = ["pop", "push", "signal", "clear_stack", "stack_size", "get_local_operating_stack"]
+    ctx = ctx_impl(src, log, names)
+    extra = [
+        Rule("R9", "args . last ( ) . context ( $m ) ?", "args_last ( args ) ?", why="slice::last; None -> error"),
+        Rule("R9", "ctx . get_nth_op_item ( $$i )", "stack_get ( & ctx . stack , $$i )", why="slice::get on the operand stack"),
+        Rule("R1", "o . object_variables . clone ( )", "clone_caps ( & o . object_variables )", why="VariableMapping handle clone: the same cells"),
+        Rule("R1", "ctx . get_local_operating_stack ( ) . clone ( )", "clone_stack ( ctx . get_local_operating_stack ( ) )", why="Vec<Primitive>::clone"),
+        Rule("R1", "path . clone ( )", "clone_vs ( path )", why="String clone"),
+        Rule("R1", "first . clone ( )", "clone_vs ( first )", why="String clone"),
+        Rule("R6", "HeapPrimitive :: new_lookup_view ( $$a )", "new_lookup_view ( $$a )", why="pointer to the member's cell"),
+        Rule("R3", ". with_context ( $$c ) ?", ". ok_or ( VErr ) ?", why="Option::with_context: None -> error (text dropped)"),
+        Rule("R10", "ctx . load_self_export ( $$a )", "load_self_export_of ( exports , $$a )", why="the executing file's export table as explicit state (R10)"),
+        Rule("R1", "bundle . primitive ( ) . clone ( )", "bundle . verif_value ( )", why="content of the cell"),
+        Rule("R9", "args . get ( 1 ) . unwrap_or ( name )", "args_get_or ( args , 1 , name )", why="slice::get(..).unwrap_or(default)"),
+        Rule("R6", "PrimitiveFlagsPair :: new ( $$a )", "new_pair ( $$a )", why="a NEW cell"),
+        Rule("R10", "ctx . register_export ( $$a ) ?", "register_export ( exports , $$a ) ?", why="the executing file's export table as explicit state (R10)"),
+        Rule("R1", "export_name . to_owned ( )", "clone_vs ( export_name )", why="String clone"),
+        Rule("R1", "variable . clone ( )", "clone_handle ( & variable )", why="handle clone: the same cell"),
+        Rule("R1", "Cow :: Owned ( name . to_owned ( ) )", "clone_vs ( name )", why="Cow<str> name"),
+        Rule("R10", "ctx . get_file_module ( )", "get_file_module ( exports )", why="the executing file's module value (R10)"),
+    ]
+    hs = {n: handler(src, log, n, extra) for n in ["call_object", "lookup", "module_entry", "load_self_export", "export_special", "ret_mod"]}
+    pre = prelude("ctx.rs").replace("    Other(OtherV),                   // Vector, Object, Module, Map", "    Object(ObjV),\n    Other(OtherV),                   // Vector, Module, Map") \
+        .replace("ReturnValue(Box<Primitive>)", "ReturnValue(ReturnValue)")
+    if "Object(ObjV)" not in pre:
+        raise Undecided("prelude ctx.rs: Primitive::Other line not found")
+    gen = header(log, f"{INSTR}: call_object, lookup, module_entry, load_self_export, export_special, ret_mod; {CTXF}: Ctx methods") + pre + ctx + OBJ_SPEC + f"""
+#[verifier::external_body] pub fn args_last(a: &Vec<VString>) -> (r: Result<&VString, VErr>) ensures a@.len() == 0 ==> r is Err, a@.len() > 0 ==> r == Ok::<&VString, VErr>(&a@[a@.len() - 1]) {{ unimplemented!() }}
+#[verifier::external_body] pub fn args_get_or<'a>(a: &'a Vec<VString>, i: usize, d: &'a VString) -> (r: &'a VString) ensures a@.len() > i ==> r == &a@[i as int], a@.len() <= i ==> r == d {{ unimplemented!() }}
+
+//@ OBL C08.handler.call_object
+// `obj.method(args)`: the method named by the LAST argument is called with the whole operand stack as arguments (the object first: `self`) and
+// with the variables OF THAT OBJECT as its captured variables -- so it reads and updates the fields of that object only
+pub fn call_object(ctx: &mut Ctx, args: &Vec<VString>) -> (r: Result<(), VErr>)
+    ensures
+        r is Ok <==> (args@.len() >= 1 && old(ctx).stack@.len() >= 1 && old(ctx).stack@[0] is Object),
+        r is Ok ==> final(ctx).stack@.len() == 0 && (final(ctx).exit_state matches Exit::JumpRequest(req) && {{
+            &&& req.destination == JumpRequestDestination::Standard(args@[args@.len() - 1])
+            &&& req.arguments@ == old(ctx).stack@
+            &&& req.callback_state is Some && caps_view(&req.callback_state->Some_0) == caps_view(&old(ctx).stack@[0]->Object_0.object_variables)
+            &&& req.stack == old(ctx).call_stack
+        }}),
+        r is Err ==> final(ctx).stack@ == old(ctx).stack@ && final(ctx).exit_state == old(ctx).exit_state,
+        rest(final(ctx)) == rest(old(ctx)),
+{{
+{render(hs['call_object'], 1)}
+}}
+//@ OBL C08.handler.lookup
+// `x.name`: the single operand is replaced by a pointer to exactly the member's own cell (a later write through it reaches the object's field)
+pub fn lookup(ctx: &mut Ctx, args: &Vec<VString>) -> (r: Result<(), VErr>)
+    ensures
+        r is Ok ==> old(ctx).stack@.len() == 1 && args@.len() >= 1 && ({{ let m = member_of(old(ctx).stack@[0], text_of(&args@[0]));
+            m is Ok && m->Ok_0 is Ok && final(ctx).stack@.len() == 1 && final(ctx).stack@[0] is HeapPrimitive && lookup_target(&final(ctx).stack@[0]->HeapPrimitive_0) == Some(cell_id(&m->Ok_0->Ok_0)) }}),
+        (old(ctx).stack@.len() == 1 && args@.len() >= 1 && ({{ let m = member_of(old(ctx).stack@[0], text_of(&args@[0])); m is Ok && m->Ok_0 is Ok }})) ==> r is Ok,
+        rest(final(ctx)) == rest(old(ctx)), final(ctx).exit_state == old(ctx).exit_state,
+{{
+{render(hs['lookup'], 1)}
+}}
+//@ OBL C11.handler.module_entry
+// `import`: a request for exactly the named module, no captured variables, the operand stack as arguments; the operand stack is left empty
+pub fn module_entry(ctx: &mut Ctx, args: &Vec<VString>) -> (r: Result<(), VErr>)
+    ensures
+        r is Ok <==> args@.len() >= 1,
+        r is Ok ==> final(ctx).stack@.len() == 0 && (final(ctx).exit_state matches Exit::JumpRequest(req) && {{
+            &&& req.destination == JumpRequestDestination::Module(args@[0])
+            &&& req.callback_state is None && req.arguments@ == old(ctx).stack@ && req.stack == old(ctx).call_stack
+        }}),
+        rest(final(ctx)) == rest(old(ctx)),
+{{
+{render(hs['module_entry'], 1)}
+}}
+//@ OBL C11.handler.load_self_export
+// a module reading one of its own exports (a class's constructor): the content of the exported cell
+pub fn load_self_export(ctx: &mut Ctx, args: &Vec<VString>, exports: &Exports) -> (r: Result<(), VErr>)
+    ensures
+        r is Ok <==> (args@.len() >= 1 && exports_view(exports).contains_key(text_of(&args@[0]))),
+        r is Ok ==> final(ctx).stack@ == old(ctx).stack@.push(cell_value(cell_id(&exports_view(exports)[text_of(&args@[0])]))),
+        rest(final(ctx)) == rest(old(ctx)), final(ctx).exit_state == old(ctx).exit_state,
+{{
+{render(hs['load_self_export'], 1)}
+}}
+//@ OBL C11.handler.export_special
+// `export class C` (and other special exports): the operand's VALUE goes into ONE new read-only cell; that cell is registered in the file's export
+// table under the export name (args[1], else the name) -- once -- and the local name is bound to the same cell
+pub fn export_special(ctx: &mut Ctx, args: &Vec<VString>, exports: &mut Exports) -> (r: Result<(), VErr>)
+    ensures
+        r is Ok ==> args@.len() >= 1 && old(ctx).stack@.len() == 1 && moved_out(old(ctx).stack@[0]) is Some && final(ctx).stack@.len() == 0 && ({{
+            let en = text_of(if args@.len() > 1 {{ &args@[1] }} else {{ &args@[0] }});
+            &&& !exports_view(old(exports)).contains_key(en)
+            &&& exports_view(final(exports)).dom() == exports_view(old(exports)).dom().insert(en)
+            &&& (forall|k: Seq<char>| exports_view(old(exports)).contains_key(k) ==> exports_view(final(exports))[k] == exports_view(old(exports))[k])
+            &&& cell_value(cell_id(&exports_view(final(exports))[en])) == moved_out(old(ctx).stack@[0])->Some_0 && cell_read_only(cell_id(&exports_view(final(exports))[en]))
+            &&& refs(&final(ctx).frames) == refs(&old(ctx).frames).push((text_of(&args@[0]), cell_id(&exports_view(final(exports))[en])))
+        }}),
+        r is Err ==> refs(&final(ctx).frames) == refs(&old(ctx).frames),
+{{
+{render(hs['export_special'], 1)}
+}}
+//@ OBL C11.handler.ret_mod
+// the end of a module's top-level code: with a clean operand stack, the value of the run is the module value of the executing file
+pub fn ret_mod(ctx: &mut Ctx, _args: &Vec<VString>, exports: &Exports) -> (r: Result<(), VErr>)
+    ensures
+        r is Ok <==> old(ctx).stack@.len() == 0,
+        r is Ok ==> final(ctx).exit_state == Exit::ReturnValue(ReturnValue::Value(module_value(exports))) && final(ctx).stack@ == old(ctx).stack@,
+        rest(final(ctx)) == rest(old(ctx)),
+{{
+{render(hs['ret_mod'], 1)}
+}}
+}} // verus!
+fn main() {{}}
+"""
+    obls = ctx_obls(names, ["C08"]) + [
+        Obl("C08.handler.call_object", ["C08", "C01"], fn="call_object", desc="call_object: the method named last is called with the whole operand stack and with the variables of THAT object as captured variables"),
+        Obl("C08.handler.lookup", ["C08", "C13"], fn="lookup", desc="lookup: the operand is replaced by a pointer to exactly the member's own cell"),
+        Obl("C11.handler.module_entry", ["C11"], fn="module_entry", desc="module_entry: a request for exactly the named module, operand stack as arguments, stack cleared"),
+        Obl("C11.handler.load_self_export", ["C11", "C08"], fn="load_self_export", desc="load_self_export: pushes the content of the exported cell of that name"),
+        Obl("C11.handler.export_special", ["C11", "C10"], fn="export_special", desc="export_special: one new read-only cell with the operand's value, registered once under the export name and bound to the local name"),
+        Obl("C11.handler.ret_mod", ["C11"], fn="ret_mod", desc="ret_mod: with a clean operand stack the run's value is the executing file's module value"),
+    ]
+    return gen, obls, log
+
+
+U_OBJH = VUnit("c08_object_handlers", ["C08", "C11", "C10", "C13", "C01"], "object and module handlers: call_object, lookup, module_entry, load_self_export, export_special, ret_mod", build_object_handlers)
+U_OBJH.assumes = ["Primitive::lookup (c14_lookup / c08_lookup), the export table (MScriptFile::add_export / update_once) and Ctx::ref_variable are abstract callees; gc cell semantics assumed"]
+UNITS.append(U_OBJH)
